@@ -22,7 +22,7 @@ Proof.
   destruct (negb (fc l =? -1) && (fc l <=? cnt s)); [reflexivity|].
   destruct (negb (in_window l ts)); [reflexivity|].
   destruct (negb (lastf s =? 0)); simpl; [|reflexivity].
-  destruct (ts - lastf s <? fp l * 1000000); reflexivity.
+  rewrite Z.gtb_ltb. reflexivity.
 Qed.
 
 (* try_trigger (one atomic step under the action's lock) is the locked model's acquire step *)
@@ -39,14 +39,16 @@ Qed.
    ==================================================================================================== *)
 Lemma code_can_trigger_sound fc fp ws we cnt lastf ts :
   gen_can_trigger fc fp ws we cnt lastf ts = true ->
-  (fc = -1 \/ cnt < fc) /\ gen_in_window ws we ts = true /\ (lastf = 0 \/ fp * 1000000 <= ts - lastf).
+  (fc = -1 \/ cnt < fc) /\ gen_in_window ws we ts = true /\ (lastf = 0 \/ fp * 1000000 <= 0 \/ fp * 1000000 <= ts - lastf).
 Proof.
   unfold gen_can_trigger, gen_stats_fire_count, gen_stats_last_fire, gen_fire_period_ns. cbv zeta.
   destruct (fc =? -1) eqn:A; destruct (fc <=? cnt) eqn:B; simpl; try discriminate;
     (destruct (gen_in_window ws we ts); simpl; [|discriminate]);
     (destruct (lastf =? 0) eqn:C; simpl;
-      [intros _; apply Z.eqb_eq in C | destruct (ts - lastf <? fp * 1000000) eqn:D; [discriminate|intros _; apply Z.ltb_ge in D]]);
-    try apply Z.eqb_eq in A; try apply Z.leb_gt in B; repeat split; auto.
+      [intros _ | destruct (fp * 1000000 >? 0) eqn:E; destruct (ts - lastf <? fp * 1000000) eqn:D; simpl; try discriminate; intros _]);
+    rewrite ?Z.gtb_ltb in *;
+    rewrite ?Z.eqb_eq, ?Z.eqb_neq, ?Z.leb_le, ?Z.leb_gt, ?Z.ltb_lt, ?Z.ltb_ge in *;
+    repeat split; try reflexivity; try (left; lia); try (right; left; lia); try (right; right; lia); try (right; lia).
 Qed.
 
 Lemma code_try_trigger fc fp ws we cnt lastf ts :
